@@ -4,7 +4,7 @@
    are in Stdlib/InverseQ.v and Stdlib/InverseR.v.
 
    Partial: exact arithmetic (Q, R) instead of f64; the FFI pairs (sin/asin, exp/ln,
-   sinh/asinh, ...), sech/asech and csch/acsch have no theorem (oracle only);
+   sinh/asinh, ...) have no theorem (oracle only);
    DateTime is an instant in rational seconds and the FFI µs functions truncate
    without range limits; _mixed_unit_list is a hand port. *)
 From Coq Require Import QArith ZArith List Reals.
@@ -54,6 +54,14 @@ Print Assumptions C23_acoth_coth.
 Theorem C23_cot_acot : forall x : R, x <> 0%R -> nbt_cot (nbt_acot x) = x.
 Proof. exact cot_acot. Qed.
 Print Assumptions C23_cot_acot.
+
+Theorem C23_sech_asech : forall x : R, (0 < x <= 1)%R -> nbt_sech (nbt_asech x) = x.
+Proof. exact sech_asech. Qed.
+Print Assumptions C23_sech_asech.
+
+Theorem C23_csch_acsch : forall x : R, x <> 0%R -> nbt_csch (nbt_acsch x) = x.
+Proof. exact csch_acsch. Qed.
+Print Assumptions C23_csch_acsch.
 
 (* splitting a quantity into a list of units: the parts add up to the original ... *)
 Theorem C23_mixed_sum : forall units val acc l,
